@@ -159,10 +159,17 @@ def _run_unit(args) -> List[Dict[str, Any]]:
                 "backend": "generator",
             }
         ]
+    try:
+        from . import framevc as _fv
+        lib_assumed = list(_fv.ASSUMED)
+    except Exception:
+        lib_assumed = []
     out = []
     for vc in vcs:
         if not vc.functions:
             vc.functions = u.functions
+        if lib_assumed and not vc.assumptions:
+            vc.assumptions = ["assumed library contract: " + a for a in lib_assumed]
         try:
             out.append(solve_vc(vc, timeout_ms))
         except Exception as e:
